@@ -338,6 +338,18 @@ FN_PROPS["C15"] = {
             "headers and JSON tree are printed by TLC's ToJson (the independent encoder); non-trivial = at least two operations"}
 
 
+FN_PROPS["C16"] = {
+    "title": "response parser is total and faithful", "module": "RespDoc", "cmd": "resp",
+    "cfg": {"quick": ["respdoc2.cfg"], "thorough": ["respdoc2.cfg"]}, "prefixes": ["DOC"], "raw_lines": True,
+    "nontrivial": lambda v: v.get("nedits", 0) >= 1,
+    "rule": "three base documents and every single edit and every pair of independent edits of the full one (each required "
+            "field removed / null / wrongly typed; each optional field absent / null / wrongly typed; boundary values of "
+            "sizes, day counts, statuses, cohorts, empty lists; extension attributes at the four places the protocol allows), "
+            "generated by TLC from RespDoc.tla with the verdict and the expected full URLs; accepted documents must decode to "
+            "exactly what they say; plus a totality sweep in a child process: truncations and single-bit flips of up to 400 "
+            "documents, nesting depth up to 3*10^6, 20000 random byte strings"}
+
+
 def cup_flips(rng, tier):
     return [{"k": "flips", "i": rng.randint(0, 1 << 30), "_": "CUP"} for _ in range(4 if tier == "quick" else 50)]
 
@@ -411,7 +423,7 @@ def run_fn(pid, tier, seed, replay, t0, as_part_of=None):
         rp = vlib.write_replay(pid, "vec-%d.ndjson" % len(viols), json.dumps(r["vec"]) + "\n")
         viols.append({"key": key, "replay": rp, "what": "%s: input %s, implementation gave %s" % (
             r["bad"], json.dumps(r["vec"])[:300], json.dumps(r.get("got"))[:200])})
-    if summary is None or summary["n"] != len(vecs):
+    if summary is None or summary["n"] < len(vecs):
         raise vlib.ToolError("harness did not process all vectors")
     rc = vlib.report(as_part_of or pid, viols)
     nt = set(json.dumps(v, sort_keys=True) for v in vecs if spec["nontrivial"](v))
